@@ -32,7 +32,7 @@ def _rc_entity(elem, id_):
 def impl_strand(case):
     from harness import implutil
     out = {}
-    fwd = implutil.run_assembly({"vector": case["vector"], "modules": case["modules"], "typed": True})
+    fwd = implutil.run_assembly({"vector": case["vector"], "modules": case["modules"], "typed": True, "prime": case.get("prime")})
     vector, _ = _rc_entity(case["vector"], "vector")
     modules = [_rc_entity(m, "mod%d" % i)[0] for i, m in enumerate(case["modules"])]
     out["rc_seqs"] = [str(vector.record.seq)] + [str(m.record.seq) for m in modules]
@@ -106,7 +106,7 @@ def run(ctx):
                 mods.pop(rng.randrange(0, q))
                 kind = "missing"
             rng.shuffle(mods)
-            cases.append({"enz": enz["name"], "kind": kind,
+            cases.append({"enz": enz["name"], "kind": kind, "prime": gens.siblings(ctx, enz) if made % 2 else [],
                           "vector": {"cls": gens.generic_spec("vector", enz), "seq": gens.reorigin(rng, ch["vector"])},
                           "modules": [{"cls": gens.generic_spec("module", enz), "seq": gens.reorigin(rng, m)} for m in mods]})
     obs = common.run_impl(ctx, "C12", "impl_strand", cases)
